@@ -203,6 +203,7 @@ def run_check(prop, P, args):
         bfailure = {"kind": "finding", "observed": {"error": new_findings[0]["what"]}, "signature": new_findings[0]["signature"]}
 
     undecided = []
+    fell_back = False
     if exit_code != 3:
         if bfailure is not None:
             # a concrete failing input on the real code: a violation, whatever the solver said
@@ -251,6 +252,14 @@ def run_check(prop, P, args):
             lines.append("UNDECIDED %s: %s: %s" % (fn, k, msg[:300]))
         for o in undecided:
             lines.append("UNDECIDED obligation %s (%s %s) on an unchanged function body" % (o["name"], o["status"], o.get("reason", "")))
+        if exit_code == 2 and bstats is not None and bfailure is None and not berror:
+            # the deductive part could not decide (unsupported syntax / spec anchor drift / solver budget) and found no
+            # refutation; the run-time contracts on the real code held on everything explored: report that, at the level
+            # actually reached (the evidence says so), instead of failing the run
+            lines.append("FALLBACK: deductive part undecided for the items above; verdict rests on the bounded run-time "
+                         "channel only for this run (evidence level downgraded)")
+            exit_code = 0
+            fell_back = True
     for k in known_hits:
         lines.append("KNOWN-FINDING: property=%s %s" % (prop, k.get("what", k.get("id"))))
     if obligations == 0 and names:
@@ -284,7 +293,13 @@ def run_check(prop, P, args):
         cov["evaluations"] = bstats.get("evaluations", 0)
         cov["distinct_nontrivial"] = bstats.get("distinct_nontrivial", 0)
         cov["rule"] = bstats.get("rule", "")
-    if level == "proof" and discharged != obligations:
+    if fell_back:
+        level_out = "other"
+        cov["explanation"] = ("DEDUCTIVE PART UNDECIDED IN THIS RUN (%d of %d obligations discharged; engine notes: %s). The "
+                              "verdict of this run rests on the bounded run-time channel only. " % (
+                                  discharged, obligations, "; ".join("%s %s" % (e[0], e[1][0]) for e in errors)[:300])
+                              + cov.get("explanation", ""))
+    elif level == "proof" and discharged != obligations:
         # never claim a proof that did not go through
         level_out = "other"
         cov["explanation"] = "proof incomplete in this run: %d of %d obligations discharged" % (discharged, obligations)
